@@ -34,7 +34,7 @@ def floors(tier):
         "evals": {"dejitter.interval": 3000, "dejitter.point": 1500, "align": 500, "morph": 2000},
         "classes": {"C14:exactly-at-D": 200, "C14:equidistant": 200, "C14:collapse-or-cross": 100, "C14:none-in-range": 300,
                     "C14:inside": 1000, "C14:just-outside": 300, "C14:align:guard-fired": 50, "C14:align:reference-untouched": 300,
-                    "C14:morph:filter": 300, "C14:morph:count-mismatch": 100, "C14:morph:empty": 20, "C14:ref-is-point-tier": 300,
+                    "C14:morph:filter": 300, "C14:morph:count-mismatch": 100, "C14:morph:empty": 20, "C14:empty-reference-raises": 10, "C14:ref-is-point-tier": 300,
                     "C14:ref-is-interval-tier": 300, "C14:reference-edited-between-calls": 200},
     }
 
@@ -138,14 +138,22 @@ def _dj_pre(ctx):
     if not (snap.wellformed_tier_snap(s) and snap.wellformed_tier_snap(sr)):
         REC.skip(mon, "ill-formed-operand")
         return SKIP
-    if not sr["entries"]:
-        REC.skip(mon, "empty-reference")
-        return SKIP
     return (mon, s, sr, D)
 
 
 def _dj_post(ctx):
     mon, s, sr, D = ctx.pre
+    if not sr["entries"]:
+        # "empty references as error cases": with timestamps to adjust and nothing to adjust them to, the call must fail
+        case = {"call": "dejitter", "tier": s, "ref": sr, "D": D}
+        if not s["entries"]:
+            REC.skip(mon, "empty-reference-and-empty-tier")
+        elif ctx.exc is None:
+            REC.violation(PROP, mon, "dejitter", case, "dejitter against a reference tier without timestamps returned %s instead of raising" % desc(ctx.result, None),
+                          (mon, "empty-ref"), {"op": "dejitter", "empty_reference": True})
+        else:
+            REC.held(mon, (mon, "empty-ref"), "C14:empty-reference-raises", case)
+        return
     refs = timestamps_of(sr)
     ok, msg, classes = judge_dejitter(s, refs, D, ctx.result, ctx.exc)
     REC.outcome(mon, ctx.exc)
@@ -401,6 +409,8 @@ def _workload(tier, rng, shard, nshards):
         ents = jitter_tier(rng, refs, D, kind, dyadic)
         t = make_tier(kind, "t", ents, 0.0, 6.0 + 20 * D)
         call(t.dejitter, ref, D)
+        if k % 40 == 0:
+            call(t.dejitter, make_tier(rng.choice("IP"), "noref", [], 0.0, 6.0), D)
         if k % 3 == 0 and len(ref.entries) >= 2:
             # the reference tier is edited in place between two adjustments against it
             REC.cls("C14:reference-edited-between-calls")
